@@ -52,7 +52,16 @@ class Conclusion(SymbolicExpression[T], ABC):
         return f"{self.__class__.__name__}({self.var._var_._name_}, {value_str})"
 
     def _reset_cache_(self, visited=None) -> None:
-        ...
+        # what is concluded with is part of the rule: a variable without a domain among its arguments ranges over the
+        # instances that exist when the rule is evaluated, whether a condition mentions it or not.
+        visited = set() if visited is None else visited
+        if id(self) in visited:
+            return
+        visited.add(id(self))
+        self.value._reset_cache_(visited)
+        if isinstance(self.value, Variable):
+            for argument in self.value._child_vars_.values():
+                argument._reset_cache_(visited)
 
     @property
     def _plot_color_(self) -> ColorLegend:
